@@ -14,7 +14,8 @@ pub struct FaviconController;
 
 impl Controller for FaviconController {
     fn is_matching(request: &Request, _connection: &ConnectionInfo) -> bool {
-        request.method == METHOD.get && request.request_uri == "/favicon.svg"
+        // query and fragment are not part of the path
+        request.method == METHOD.get && request.get_uri_path().unwrap_or(request.request_uri.to_string()) == "/favicon.svg"
     }
 
     fn process(_request: &Request, mut response: Response, _connection: &ConnectionInfo) -> Response {
